@@ -33,7 +33,7 @@ META = {
     'components_stub': ['S3 bucket', 'directory listing order', 'uuid / clock'],
     'budgets': {'quick': {'seconds': 35}, 'thorough': {'seconds': 480}},
     'required_probes': {'thorough': ['s3_default_empty_prefix', 'category_prefix_sibling', 'filter_absent_key', 'filter_list', 'filter_operator', 'filter_pattern',
-                                     'limit_below_matches', 'random_order', 'skip_incomplete_lookup', 'recorder_made_recording', 'restart']},
+                                     'limit_below_matches', 'random_order', 'skip_incomplete_lookup', 'recorder_made_recording', 'restart', 'interleaved_lookups', 'saved_twice_under_one_id']},
 }
 
 
@@ -120,6 +120,9 @@ def scenario(run, tape, clock, stores):
         elif flag == 'incomplete':
             md[INC] = True
         by_recorder = tape.draw(6) == 5
+        resave = tape.draw(8) == 7
+        if resave and not by_recorder:
+            run.probe('saved_twice_under_one_id')
         universe.append(md)
         for name in ('memory', 'file', 's3'):
             cas = cass[name]
@@ -138,6 +141,8 @@ def scenario(run, tape, clock, stores):
                 r.set_data('k', i)
                 r.add_metadata(copy.deepcopy(md))
                 cas.save_recording(r)
+                if resave:
+                    cas.save_recording(r)      # saved again under the same id: still one recording
                 ids[name][i] = r.id
         if by_recorder:
             md = dict(md)
@@ -160,6 +165,11 @@ def scenario(run, tape, clock, stores):
         rnd = tape.draw(4) == 3
         if rnd:
             run.probe('random_order')
+        interleave = tape.draw(4) == 3 and not skip_lookup
+        other_cat = tape.choice(S.CATEGORIES)
+        other_filt = gen_filter(tape, run, universe) if interleave else None
+        if interleave:
+            run.probe('interleaved_lookups')
         eff = copy.deepcopy(filt)
         if skip_lookup:
             run.probe('skip_incomplete_lookup')
@@ -183,6 +193,16 @@ def scenario(run, tape, clock, stores):
                 if skip_lookup:
                     props = RecordingLookupProperties(None, metadata=copy.deepcopy(filt), limit=limit, random_sample=rnd, skip_incomplete=True)
                     got = list(find_matching_recording_ids(TapeRecorder(cas), cat, props))
+                elif interleave:
+                    # a lookup that is still being consumed while another lookup (other category / filter) runs on the same
+                    # cassette object
+                    it = cas.iter_recording_ids(cat, metadata=copy.deepcopy(filt), limit=limit, random_results=rnd)
+                    got = []
+                    first = next(it, None)
+                    if first is not None:
+                        got.append(first)
+                    list(cas.iter_recording_ids(other_cat, metadata=copy.deepcopy(other_filt)))
+                    got.extend(it)
                 else:
                     got = list(cas.iter_recording_ids(cat, metadata=copy.deepcopy(filt), limit=limit, random_results=rnd))
             except Exception as ex:
